@@ -2,6 +2,7 @@
 # tools/seed.sh <name> <worktree> <check-id>... : confirm a seeded change in its scratch worktree
 # (demo fails with it / passes without it, suite unchanged), store it under /verif/seeded/<name>,
 # run the given quick checks against it on /repo, record everything in meta.json
+export VERIF_EVIDENCE_DIR=/tmp/vt/evidence_scratch; mkdir -p $VERIF_EVIDENCE_DIR   # never overwrite /verif/evidence from a scratch tree
 name=$1; wt=$2; shift 2
 [ -f $wt/patch.diff ] || { echo "no patch"; exit 2; }
 cd $wt || exit 2
